@@ -252,10 +252,99 @@ def inplace_case(col, auto_update):
     col.add(None if bad is None else {"sig": "native::coherence::in_place_mutation", "what": bad, "input": {"auto_update": auto_update}})
 
 
+def transformed_state_case(col, how):
+    """a state saved while nodes are pending that passed through a JAX / numpy transformation before it is restored: the flags come back as
+    boolean array scalars with the same truth value - pending nodes must still be recomputed by the next update"""
+    import jax
+    import jax.numpy as jnp
+    import tensorflow_probability.substrates.jax.distributions as tfd_
+    mu = lsl.Var(np.float32(0.0), name="mu")
+    loc = lsl.Calc(lambda m_: 3.0 * m_, mu, _name="loc")
+    y = lsl.Var(np.array([0.5, 1.0], np.float32), lsl.Dist(tfd_.Normal, loc=loc, scale=1.0), name="y")
+    m = lsl.GraphBuilder().add(y).build_model()
+    m.auto_update = False
+    m.vars["mu"].value = np.float32(2.0)  # loc, y_log_prob, totals pending
+    saved = m.state
+    if how == "tree_map_asarray":
+        saved = jax.tree.map(jnp.asarray, saved)
+    elif how == "numpy_bool":
+        saved = {k: type(v)(v.value, np.bool_(v.outdated)) for k, v in saved.items()}
+    else:
+        saved = jax.device_put(saved)
+    m.vars["mu"].value = np.float32(-1.0)
+    m.update()
+    m.state = saved
+    m.update()
+    want = float(np.sum(np.asarray(tfd_.Normal(6.0, 1.0).log_prob(np.array([0.5, 1.0], np.float32)))))
+    node = m.nodes["y_log_prob"]
+    got = float(np.sum(np.asarray(node.value)))
+    ok = bool(node.outdated) or np.isclose(got, want, rtol=1e-5)
+    col.add(None if ok else {"sig": "native::coherence::restored_state_with_array_flags", "what": f"state saved with pending nodes, passed through {how}, restored, update(): y_log_prob reports up to date "
+                             f"but sums to {got}, from-scratch value {want}", "input": {"transformation": how}})
+
+
+def none_value_case(col, auto_update):
+    """None assigned to an optional input of a cached calculation (None is a value): the calculation and everything below it are recomputed"""
+    import tensorflow_probability.substrates.jax.distributions as tfd_
+    off = lsl.Var(np.float32(2.0), name="offset")
+    base = lsl.Var(np.float32(5.0), name="base")
+    total = lsl.Calc(lambda b_, o_: b_ if o_ is None else b_ + o_, base, off, _name="total")
+    doubled = lsl.Calc(lambda t_: 2.0 * t_, total, _name="doubled")
+    y = lsl.Var(np.float32(0.0), lsl.Dist(tfd_.Normal, loc=doubled, scale=1.0), name="y")
+    m = lsl.GraphBuilder().add(y).build_model()
+    m.auto_update = auto_update
+    m.vars["offset"].value = None
+    if not auto_update:
+        m.update()
+    bad = [f"{nm} reports up to date but holds {float(m.nodes[nm].value)}, from-scratch value {w}" for nm, w in (("total", 5.0), ("doubled", 10.0)) if not m.nodes[nm].outdated and float(m.nodes[nm].value) != w]
+    if any(m.nodes[nm].outdated for nm in ("total", "doubled", "y_log_prob")):
+        bad.append("nodes still outdated after a full update: " + str([nm for nm in ("total", "doubled", "y_log_prob") if m.nodes[nm].outdated]))
+    col.add(None if not bad else {"sig": "native::coherence::none_valued_input", "what": f"offset = None assigned (auto_update={auto_update}): " + "; ".join(bad), "input": {"auto_update": auto_update}})
+
+
+def core_native(col, seed, n_graphs=4, n_hist=3, length=6):
+    """the part of this stand-in that other properties re-run (their statements rest on the caching protocol): all scripted histories, the
+    special scenarios, and a few seeded random graphs x histories; every violation found is reported under the calling property"""
+    rng = random.Random(seed)
+    for fn, args in ((failed_assignment_case, ()), (inplace_case, (True,)), (inplace_case, (False,)), (none_value_case, (True,)), (none_value_case, (False,)),
+                     (transformed_state_case, ("tree_map_asarray",))):
+        try:
+            fn(col, *args)
+        except Exception as e:
+            col.add({"sig": f"native::coherence::exception::{type(e).__name__}", "what": f"{fn.__name__}: {type(e).__name__}: {str(e)[:200]}", "input": {"scenario": fn.__name__}})
+    for spec_cls, scripts in ((JoinSpec, SCRIPTS), (OrderSpec, ORDER_SCRIPTS)):
+        for sc in scripts:
+            try:
+                col.add(run_history(col, rng, spec_cls(), 0, script=sc))
+            except Exception as e:
+                col.add({"sig": f"native::coherence::exception::{type(e).__name__}", "what": f"{type(e).__name__}: {str(e)[:200]}", "input": {"graph": spec_cls().nodes, "script": sc}})
+    for gi in range(n_graphs):
+        spec = Spec(rng)
+        for hi in range(n_hist):
+            try:
+                col.add(run_history(col, rng, spec, length))
+            except Exception as e:
+                col.add({"sig": f"native::coherence::exception::{type(e).__name__}", "what": f"{type(e).__name__}: {str(e)[:200]}", "input": {"graph": spec.nodes}})
+
+
+CORE_RULE = ("BOUNDED (shared with C01): the caching protocol: scripted histories on a join-shaped and a two-path graph, failed / in-place / None assignments, a restored state with "
+             "array-valued flags, and 4 seeded random graphs x 3 histories of 6 operations, each compared with a from-scratch rebuild")
+
+
 def bounded(tier, seed):
     rng = random.Random(seed)
     col = util.Collector()
     n_graphs, n_hist, length = (12, 4, 6) if tier == "quick" else (150, 12, 7)
+    for au in (True, False):
+        try:
+            none_value_case(col, au)
+        except Exception as e:
+            col.add({"sig": f"native::coherence::exception::{type(e).__name__}", "what": f"{type(e).__name__}: {str(e)[:200]}", "input": {"scenario": "None assigned to an optional input", "auto_update": au}})
+    for how in ("tree_map_asarray", "numpy_bool", "device_put"):
+        try:
+            transformed_state_case(col, how)
+        except Exception as e:
+            col.add({"sig": f"native::coherence::exception::{type(e).__name__}", "what": f"{type(e).__name__}: {str(e)[:200]}", "input": {"scenario": "restored state with array flags", "how": how}})
     try:
         failed_assignment_case(col)
     except Exception as e:
@@ -279,7 +368,7 @@ def bounded(tier, seed):
             except Exception as e:
                 col.add({"sig": f"native::coherence::exception::{type(e).__name__}", "what": f"{type(e).__name__}: {str(e)[:200]}", "input": {"graph": spec.nodes}})
     return {"evaluations": col.evals, "distinct_nontrivial": col.evals,
-            "rule": (f"BOUNDED: {len(SCRIPTS) + len(ORDER_SCRIPTS)} scripted histories on a join-shaped graph and on a graph where a node is reachable by two paths of different length (targeted update order) (outdated nodes left behind while auto-update is on again, then an assignment to a non-ancestor); {n_graphs} seeded random DAGs (1-3 strong variables with or without a distribution, 1-4 further nodes out of cached Calc, transient Calc, weak variable, weak "
+            "rule": (f"BOUNDED: {len(SCRIPTS) + len(ORDER_SCRIPTS)} scripted histories on a join-shaped graph and on a graph where a node is reachable by two paths of different length (targeted update order) (outdated nodes left behind while auto-update is on again, then an assignment to a non-ancestor); a state with pending nodes restored after a JAX / numpy transformation (array-valued flags); None assigned to an optional input of a cached calculation; {n_graphs} seeded random DAGs (1-3 strong variables with or without a distribution, 1-4 further nodes out of cached Calc, transient Calc, weak variable, weak "
                      f"variable with distribution, bare Value node; 1-2 parents each) x {n_hist} random histories of {length} operations (assign, toggle auto-update, full update, targeted "
                      "update of a random node, Node.clear_state() of a random caching node, save, restore) on the real model; call counters in every node function; after every operation every up-to-date node is compared with a "
                      f"from-scratch rebuild at the current input values. seed={seed}"),
